@@ -208,7 +208,7 @@ func moduleObligations(ld *Loaded, specs *SpecDB, prop, repo string) []*ObResult
 				return
 			}
 			seen[name] = true
-			if specs.Lookup(name) != nil || depth > 5 || len(callersOf[name]) == 0 {
+			if specs.Funcs[name] != nil || depth > 5 || len(callersOf[name]) == 0 {
 				attributed = append(attributed, name)
 				return
 			}
@@ -222,7 +222,19 @@ func moduleObligations(ld *Loaded, specs *SpecDB, prop, repo string) []*ObResult
 		mapRanges = attributed
 		sort.Strings(mapRanges)
 		wantRanges := []string{"registry.MethodScope.resolveImportVarConflicts", "registry.Registry.Imports", "registry.Registry.searchImport"}
-		add("C14", scanOb("module/map-ranges-accounted", strings.Join(mapRanges, ",") == strings.Join(wantRanges, ","),
+		// every site must be one of the accounted ones (a site that disappears takes its order dependence with it)
+		budget := map[string]int{}
+		for _, w := range wantRanges {
+			budget[w]++
+		}
+		okRanges := true
+		for _, m := range mapRanges {
+			budget[m]--
+			if budget[m] < 0 {
+				okRanges = false
+			}
+		}
+		add("C14", scanOb("module/map-ranges-accounted", okRanges,
 			fmt.Sprintf("range-over-map sites %v; order-independence is proved for %v only", mapRanges, wantRanges)))
 		sort.Strings(writers)
 		// helpers of run: functions of package main without a contract that are called from nowhere but run (or
